@@ -139,7 +139,7 @@ def count_points(make_bodies, roots, first):
     return sum(1 for o in b.owner_at if o == first), b.points
 
 
-def explore_slice(make_bodies, roots, bound, observe, first, indexes):
+def explore_slice(make_bodies, roots, bound, observe, first, indexes, second_stride=1):
     """
     For each index i in `indexes` (a scheduling point of the thread that runs first): the execution with one
     preemption at i, and (bound >= 2) every execution with a second preemption at a point of the other thread's
@@ -158,7 +158,7 @@ def explore_slice(make_bodies, roots, bound, observe, first, indexes):
                     run_len += 1
                 else:
                     break
-            for j in range(i + 1, i + 1 + run_len):
+            for j in range(i + 1 + (i % second_stride), i + 1 + run_len, second_stride):
                 bodies, ctx = make_bodies()
                 b2 = Baton(bodies, [i, j], roots, first=first)
                 res = b2.run()
